@@ -414,7 +414,7 @@ class Trig:
         Yz, Xz = toz(Y), toz(X)
         if E.decide(z3.And(Yz == 0, Xz == 0)):
             E.axioms_used.add('D1-zero')
-            return 0.0
+            return core._np.float64(0.0)      # numpy returns a float64 scalar (it has .copy() etc.)
         key, hit = self._cached('atan2', Yz, Xz)
         if hit is not None:
             return hit
